@@ -537,13 +537,25 @@ private:
     using segment_element_allocator_type = typename allocator_traits_type::template rebind_alloc<segment_element_type>;
     using segment_element_allocator_traits = tbb::detail::allocator_traits<segment_element_allocator_type>;
 
+    // All segments of the first block hold the value of segment 0 (the block pointer or the failure tag).
+    // The thread that published segment 0 may never fill the others (it can throw while extending the
+    // table, or fill only a stale snapshot of the table), so do not wait for it.
+    void publish_first_block_segment( segment_table_type table, segment_index_type seg_index ) {
+        segment_type expected = nullptr;
+        table[seg_index].compare_exchange_strong(expected, table[0].load(std::memory_order_acquire));
+    }
+
     segment_table_type allocate_long_table( const typename base_type::atomic_segment* embedded_table, size_type start_index ) {
         __TBB_ASSERT(start_index <= this->embedded_table_size, "Start index out of embedded table");
 
         // If other threads are trying to set pointers in the short segment, wait for them to finish their
         // assignments before we copy the short segment to the long segment. Note: grow_to_at_least depends on it
         for (segment_index_type i = 0; this->segment_base(i) < start_index; ++i) {
-            spin_wait_while_eq(embedded_table[i], segment_type(nullptr));
+            if (i != 0 && i < this->my_first_block.load(std::memory_order_relaxed)) {
+                publish_first_block_segment(this->my_embedded_table, i);
+            } else {
+                spin_wait_while_eq(embedded_table[i], segment_type(nullptr));
+            }
         }
 
         // It is possible that the table was extend by a thread allocating first_block, need to check this.
@@ -572,7 +584,7 @@ private:
         if (seg_index < first_block) {
             // If 0 segment is already allocated, then it remains to wait until the segments are filled to requested
             if (table[0].load(std::memory_order_acquire) != nullptr) {
-                spin_wait_while_eq(table[seg_index], segment_type(nullptr));
+                publish_first_block_segment(table, seg_index);
                 return nullptr;
             }
 
@@ -605,8 +617,8 @@ private:
             } else if (new_segment != this->segment_allocation_failure_tag) {
                 // Deallocate the memory
                 segment_element_allocator_traits::deallocate(segment_allocator, new_segment, first_block_size);
-                // 0 segment is already allocated, then it remains to wait until the segments are filled to requested
-                spin_wait_while_eq(table[seg_index], segment_type(nullptr));
+                // 0 segment is already allocated, then it remains to fill the requested segment
+                publish_first_block_segment(table, seg_index);
             }
         } else {
             size_type offset = this->segment_base(seg_index);
@@ -798,10 +810,20 @@ private:
             segment_index_type seg_index = this->segment_index_of(i);
             segment_type segment = current_table[seg_index].load(std::memory_order_acquire);
             if (segment == nullptr) {
-                if (seg_index >= this->my_first_block.load(std::memory_order_relaxed) && i == this->segment_base(seg_index)) {
+                // A segment is enabled by the call that claimed its first element (for the first block - the element 0)
+                if (seg_index < this->my_first_block.load(std::memory_order_relaxed) ? i == 0 : i == this->segment_base(seg_index)) {
                     current_table[seg_index].compare_exchange_strong(segment, this->segment_allocation_failure_tag);
                 } else {
-                    spin_wait_while_eq(current_table[seg_index], segment_type(nullptr));
+                    // The segment is enabled by another thread, unless that thread failed to extend the table
+                    atomic_backoff backoff;
+                    while (current_table[seg_index].load(std::memory_order_acquire) == nullptr &&
+                           !this->my_segment_table_allocation_failed.load(std::memory_order_relaxed)) {
+                        if (seg_index < this->my_first_block.load(std::memory_order_relaxed) &&
+                            current_table[0].load(std::memory_order_acquire) != nullptr) {
+                            publish_first_block_segment(current_table, seg_index);
+                        }
+                        backoff.pause();
+                    }
                 }
                 segment = current_table[seg_index].load(std::memory_order_acquire);
             }
@@ -816,12 +838,14 @@ private:
         static_assert(sizeof...(Args) < 2, "Too many parameters");
         static_cast<void>(table); // the active table is re-read by zero_unconstructed_range
         for (size_type idx = start_idx; idx < end_idx; ++idx) {
-            auto element_address = &base_type::template internal_subscript</*allow_out_of_range_access=*/true>(idx);
             // try_call API is not convenient here due to broken
             // variadic capture on GCC 4.8.5
+            // The guard also covers a failed segment allocation: the segments claimed by this call
+            // but not enabled yet have to be marked, other threads wait for them
             auto value_guard = make_raii_guard( [&] {
                 zero_unconstructed_range(idx, end_idx);
             });
+            auto element_address = &base_type::template internal_subscript</*allow_out_of_range_access=*/true>(idx);
             segment_table_allocator_traits::construct(base_type::get_allocator(), element_address, args...);
             value_guard.dismiss();
         }
@@ -831,8 +855,8 @@ private:
     void internal_loop_construct( segment_table_type table, size_type start_idx, size_type end_idx, ForwardIterator first, ForwardIterator ) {
         static_cast<void>(table); // the active table is re-read by zero_unconstructed_range
         for (size_type idx = start_idx; idx < end_idx; ++idx) {
-            auto element_address = &base_type::template internal_subscript</*allow_out_of_range_access=*/true>(idx);
             try_call( [&] {
+                auto element_address = &base_type::template internal_subscript</*allow_out_of_range_access=*/true>(idx);
                 segment_table_allocator_traits::construct(base_type::get_allocator(), element_address, *first++);
             } ).on_exception( [&] {
                 zero_unconstructed_range(idx, end_idx);
@@ -854,7 +878,12 @@ private:
                 size_type first_element = this->segment_base(seg_index);
                 if (first_element >= start_idx && first_element < end_idx) {
                     segment_type segment = table[seg_index].load(std::memory_order_relaxed);
-                    base_type::enable_segment(segment, table, seg_index, first_element);
+                    try_call( [&] {
+                        base_type::enable_segment(segment, table, seg_index, first_element);
+                    } ).on_exception( [&] {
+                        // Mark the other segments claimed by this call, other threads wait for them
+                        zero_unconstructed_range(start_idx, end_idx);
+                    });
                 }
             }
         }
@@ -893,13 +922,24 @@ private:
         if (end_segment >= this->pointers_per_embedded_table &&
             this->get_table() == this->my_embedded_table)
         {
-            spin_wait_while_eq(this->my_segment_table, this->my_embedded_table);
+            atomic_backoff backoff;
+            while (this->get_table() == this->my_embedded_table) {
+                // The thread that had to extend the table may have failed to allocate it
+                if (this->my_segment_table_allocation_failed.load(std::memory_order_relaxed)) {
+                    throw_exception(exception_id::bad_alloc);
+                }
+                backoff.pause();
+            }
         }
 
         for (segment_index_type seg_idx = 0; seg_idx <= end_segment; ++seg_idx) {
             if (this->get_table()[seg_idx].load(std::memory_order_relaxed) == nullptr) {
                 atomic_backoff backoff(true);
                 while (this->get_table()[seg_idx].load(std::memory_order_relaxed) == nullptr) {
+                    // A thread that failed to extend the table never allocates the segments it claimed
+                    if (this->my_segment_table_allocation_failed.load(std::memory_order_relaxed)) {
+                        throw_exception(exception_id::bad_alloc);
+                    }
                     backoff.pause();
                 }
             }
